@@ -11,9 +11,27 @@ def main(tier, only=None):
         chk.bounds += ["splice: every NUL-terminated buffer of <= %d bytes over {backslash, LF, CR, 'a', space} "
                        "(all 5^k contents for every k, symbolic)" % nbuf]
         U = nbuf + 2
-        hs = [e1.H("h_splice_lines", "splice/lines/len%d" % nbuf, unwind=U, defines=("NBUF=%d" % nbuf,),
-                   timeout=900 if tier == "quick" else 2400)]
+        to = 900 if tier == "quick" else 2400
+        d = ("NBUF=%d" % nbuf,)
+        hs = [e1.H("h_splice_count", "splice/newline-count-and-survivors", unwind=U, defines=d, timeout=to),
+              e1.H("h_splice_unspliced", "splice/line/no-splice-before", unwind=U, defines=d, timeout=to),
+              e1.H("h_splice_lag", "splice/line/lags-by-splices", unwind=U, defines=d, timeout=to),
+              e1.H("h_splice_c11", "splice/line/after-splice-c11", unwind=U, defines=d, timeout=to)]
         e1.run_set(chk, "c18/splice.c", hs, workers=int(os.environ.get("VERIF_WORKERS", "8")))
+    if "line" in fams:
+        chk.bounds += ["#line: one `#line n` / `# n` directive on physical line p, __LINE__ probed on lines "
+                       "q0 < p < q1 < q2 <= 2^20, 0 <= n <= 2^30, all symbolic"]
+        chk.assumptions += ["line.c stubs: convert_pp_tokens (PP_NUM -> NUM keeping the value), "
+                            "format+tokenize inside new_num_token (one number token), hashmap_* (association "
+                            "list), equal/skip/consume (same semantics), error_tok (asserted unreachable)"]
+        hs = []
+        for form, fk in ((0, "hash-line"), (1, "gnu-marker")):
+            d = ("FORM=%d" % form,)
+            hs += [e1.H("h_line_before", "line/%s/before-directive" % fk, unwind=14, defines=d, timeout=600),
+                   e1.H("h_line_relative", "line/%s/advances-with-physical" % fk, unwind=14, defines=d, timeout=600),
+                   e1.H("h_line_eof", "line/%s/eof-token-adjusted" % fk, unwind=14, defines=d, timeout=600),
+                   e1.H("h_line_c11", "line/%s/c11-following-line-is-n" % fk, unwind=14, defines=d, timeout=600)]
+        e1.run_set(chk, "c18/line.c", hs, workers=int(os.environ.get("VERIF_WORKERS", "8")))
     chk.outside += ["positions across nested #include files and macro-origin chains (pointer-rich)",
                     ".loc/.file emission in codegen.c; columns in diagnostics (verror_at)",
                     "comments and UCNs: not part of the splice alphabet"]
